@@ -7,6 +7,8 @@ from hypothesis import strategies as st
 from pbt.harness import Sub, Violation, SutRaised, Rejected, require, sut
 from pbt import gen
 from pbt.models import ExactNet
+from pbt import nets
+from tangermeme.deep_lift_shap import deep_lift_shap
 
 from tangermeme.marginalize import marginalize, marginalize_annotations
 from tangermeme.ablate import ablate, ablate_annotations
@@ -20,7 +22,8 @@ LEVEL = "exploration"
 RULE = ("cases = (wrapper in {marginalize, ablate, space, marginalize_annotations, ablate_annotations, apply_pairwise, "
         "apply_product}, batch of 1-4 sequences of length 8-20, 1-3 outputs, 0-2 per-example args with distinct rows, motif form, "
         "n shuffles 1-5, 1-4 spacing rows, 1-6 annotations (!= number of outputs on purpose), product argument sets of sizes 1-4, "
-        "batch sizes, func in {echo that returns an exact encoding of the (X, args) it received; predict on an exact-integer model}) "
+        "batch sizes, func in {echo that returns an exact encoding of the (X, args) it received; predict on an exact-integer model; "
+        "deep_lift_shap on a random float64 architecture with seeded references}) "
         "drawn by Hypothesis. Oracle = explicit loops over the output indices with a string model of substitute/multisubstitute and "
         "the stated-seed shuffle. Non-trivial: B >= 2 and (n >= 2 or >= 2 spacing rows or >= 2 annotations or product size > 1) with "
         "multi-output or per-example-distinct args; annotation variants need #annotations != #outputs. Distinct = SHA-1 of case JSON.")
@@ -72,6 +75,14 @@ class Env:
                                   container="tensor" if self.nout == 1 else case.get("container", "tuple"))
             self.func = predict
             self.fkw = {"device": "cpu", "batch_size": case.get("batch_size", 3)}
+        elif self.kind == "dls":
+            # attributions as func: float64 random architecture, generated references with an integer seed; compared at 1e-9
+            self.model = nets.build(case["arch"], case["seed"])
+            self.func = deep_lift_shap
+            self.fkw = {"device": "cpu", "batch_size": case.get("batch_size", 3), "n_shuffles": 2, "target": 0}
+            if case["op"] not in ("ablate", "ablate_annotations"):
+                self.fkw["random_state"] = case.get("rs", 0)       # ablate forwards its own random_state to func
+            self.X = self.X.to(torch.float64)
         else:
             self.model = torch.nn.Identity()      # the wrappers call model.to(device).eval() themselves
             self.func = make_echo(self.nout)
@@ -81,6 +92,14 @@ class Env:
         """list over outputs of the 1-D expected output for sequence string s with arg rows argrow"""
         if self.kind == "echo":
             return echo_expected(s, argrow, self.nout)
+        if self.kind == "dls":
+            import copy
+            import warnings
+            x = gen.encode(s, ALPHA, torch.float64).unsqueeze(0)
+            with warnings.catch_warnings():
+                warnings.simplefilter("ignore")
+                a = deep_lift_shap(copy.deepcopy(self.model), x, device="cpu", n_shuffles=2, target=0, random_state=self.case.get("rs", 0))
+            return [a[0]]
         x = gen.encode(s, ALPHA, torch.float64).unsqueeze(0)
         a = [torch.tensor([r], dtype=torch.int64) for r in argrow]
         y = self.model.reference(x, *a)
@@ -102,7 +121,9 @@ def _outs(y, nout, clause):
 def _cmp(got, want, clause, where):
     for k, (g, w) in enumerate(zip(got, want)):
         require(tuple(g.shape) == tuple(w.shape), clause + "-shape", lambda: "%s output %d: shape %s want %s" % (where, k, tuple(g.shape), tuple(w.shape)))
-        require(torch.equal(g.to(torch.float64), w.to(torch.float64)), clause + "-value",
+        same = torch.equal(g.to(torch.float64), w.to(torch.float64)) or (
+            g.dim() == 2 and g.shape[0] == 4 and torch.allclose(g.to(torch.float64), w.to(torch.float64), rtol=1e-9, atol=1e-12))   # (A, L) attributions
+        require(same, clause + "-value",
                 lambda: "%s output %d: got %s want %s" % (where, k, g.flatten().tolist()[:8], w.flatten().tolist()[:8]))
 
 
@@ -265,10 +286,19 @@ def strategy(draw):
     L = draw(st.integers(8, 20))
     seqs = [draw(st.text(alphabet="ACGT", min_size=L, max_size=L)) for _ in range(B)]
     nout = draw(st.integers(1, 3))
-    case = {"op": op, "seqs": seqs, "nout": nout, "func": draw(st.sampled_from(["echo", "echo", "predict"])),
+    func = draw(st.sampled_from(["echo", "echo", "predict", "dls"]))
+    if func == "dls" and op in ("pairwise", "product"):
+        func = "predict"
+    if func == "dls":
+        nout = 1
+    case = {"op": op, "seqs": seqs, "nout": nout, "func": func,
             "seed": draw(st.integers(0, 10 ** 6)), "dtype": draw(st.sampled_from(["float64", "float32", "int8"])),
             "batch_size": draw(st.integers(1, 7)), "container": draw(st.sampled_from(["tuple", "list"]))}
-    if op not in ("pairwise", "product"):
+    if func == "dls":
+        case["arch"] = draw(nets.arch_strategy(L, max_blocks=2, n_targets=2))
+        case["rs"] = draw(st.integers(0, 10 ** 6))
+        case["args"] = []
+    elif op not in ("pairwise", "product"):
         case["args"] = _args(draw, B, draw(st.integers(0, 2)))
     if op == "marginalize":
         m = draw(st.integers(1, min(6, L)))
@@ -279,7 +309,7 @@ def strategy(draw):
         a = draw(st.integers(0, L - 4))
         case["start"], case["end"] = a, draw(st.integers(a + 4, L))
         case["n"] = draw(st.integers(1, 5))
-        case["rs"] = draw(st.integers(0, 10 ** 6))
+        case["rs"] = case.get("rs", draw(st.integers(0, 10 ** 6)))
         case["shuffle_fn"] = draw(st.sampled_from(["shuffle", "shuffle", "dinucleotide_shuffle"]))
         if case["shuffle_fn"] == "dinucleotide_shuffle" and case["end"] - case["start"] < 10:
             case["n"] = 1
@@ -309,7 +339,7 @@ def strategy(draw):
             ann.append([draw(st.integers(0, B - 1)), s0, draw(st.integers(s0 + 3, L))])
         case["annotations"] = ann
         case["n"] = draw(st.integers(1, 4))
-        case["rs"] = draw(st.integers(0, 10 ** 6))
+        case["rs"] = case.get("rs", draw(st.integers(0, 10 ** 6)))
         if draw(st.integers(0, 3)) > 0:
             case["args"] = []
     else:
